@@ -406,4 +406,34 @@ theorem P0x9208_Parse_total (fuel : Nat) (p : model_P0x9208) (j : jt808_JTMessag
   simp only [sliceFrom, slice_as _ _ _ _ _ _ hf]
   go_total
 
+/-! ### 0x0102 (authentication): the software version is cut at its first NUL byte -/
+
+theorem indexByte_range (b : Bytes) (c : Byte) : indexByte b c = -1 ∨ (0 ≤ indexByte b c ∧ indexByte b c < (b.length : Int)) := by
+  unfold indexByte
+  cases h : b.findIdx? (· == c) with
+  | none => left; rfl
+  | some i =>
+    right
+    have := List.findIdx?_eq_some_iff_getElem.mp h
+    obtain ⟨hi, _⟩ := this
+    simp only; omega
+
+/-- the value of `data[:index]` behind `if index := bytes.IndexByte(data, 0); index != -1` -/
+def cutNul (d : Bytes) : Bytes := if indexByte d 0 != -1 then d.take (indexByte d 0).toNat else d
+
+theorem cutNul_ok (d : Bytes) :
+    (if (indexByte d (0 : UInt8) != (-1 : Int)) then (X.bind (sliceTo d (indexByte d (0 : UInt8))) (fun t => (X.ok t : X Bytes))) else (X.ok d)) = X.ok (cutNul d) := by
+  unfold cutNul
+  rcases indexByte_range d 0 with h | ⟨h0, h1⟩
+  · simp [h]
+  · have hne : (indexByte d (0 : UInt8) != (-1 : Int)) = true := by simp; omega
+    simp only [hne, if_true]
+    unfold sliceTo
+    rw [slice_int d 0 _ (by omega)]
+    simp
+
+theorem T0x0102_Parse_total (fuel : Nat) (t : model_T0x0102) (j : jt808_JTMessage) : (model_T0x0102_Parse fuel t j).isOk = true := by
+  simp only [model_T0x0102_Parse, model_T0x0102_Parse_j2, model_T0x0102_Parse_j1, cutNul_ok]
+  go_total
+
 end JT.Gen.GoModel
